@@ -293,7 +293,23 @@ def addRaw (H : Nat → Id) (cw : Perm → Bool) (keep : Bool) (l : Log) (t : Tr
   | .ok new =>
     match snapCheck t new new with
     | .invalid => (.err .invalid, [], t)
-    | .rebuild => (.rebuild, [], t)
+    | .rebuild =>
+      -- `rebuildFromStorage(heads, path, newChanges)`: a fresh tree is built (`AddFast`) from the
+      -- stored changes after the common snapshot plus the new changes, then `validateTree(nil)` =
+      -- FULL validation of everything attached. Modelling assumption (see `reload`): the stored
+      -- changes re-attach faithfully, i.e. the rebuilt tree starts as `t.attached`; no `snapCheck`
+      -- applies on this path (a change attaches when its snapshot id is attached). When validation
+      -- fails the previous tree is restored (repair f2ef10f); before the repair the tree was
+      -- reloaded from the storage instead (`rollbackByReload`).
+      let s := treeAdd t.attached new
+      match validateAll cw keep l s.attached t.rootId s.attached with
+      | .error e => (.err e, [], t)
+      | .ok () =>
+        if s.added.isEmpty then (.ok, [], t)
+        else
+          (.ok, s.added.map (·.id),
+            { t with attached := s.attached, heads := computeHeads s.attached,
+                     stored := t.stored ++ s.added.map (·.id), storedHeads := computeHeads s.attached })
     | .fine =>
       let s := treeAdd t.attached new
       if s.added.isEmpty then (.ok, [], t)
@@ -305,6 +321,26 @@ def addRaw (H : Nat → Id) (cw : Perm → Bool) (keep : Bool) (l : Log) (t : Tr
         | .ok () =>
           (.ok, s.added.map (·.id),
             { t1 with stored := t.stored ++ s.added.map (·.id), storedHeads := t1.heads })
+
+/-- does the batch take the `rebuildFromStorage` branch? (for the driver / correspondence) -/
+def takesRebuild (H : Nat → Id) (t : TreeSt) (batch : List Raw) : Bool :=
+  match filterNew H t batch with
+  | .ok (c :: cs) => snapCheck t (c :: cs) (c :: cs) == .rebuild
+  | _ => false
+
+/-- `treeBuilder.build`: a fresh tree from the stored changes, read in the order of the storage
+(order ids), the first one being the root / common snapshot: `AddFast` attaches each change whose
+previous ids and snapshot id are attached and DROPS a change whose previous ids are attached but
+whose snapshot id is not (yet). -/
+def reload (storedInOrder : List Change) : List Change :=
+  match storedInOrder with
+  | [] => []
+  | root :: rest => (treeAdd [root] rest).attached
+
+/-- the rollback of a refused rebuild-branch batch BEFORE repair f2ef10f: the tree is reloaded from
+the storage (whose order is the order-id order, not the attach order) -/
+def rollbackByReload (t : TreeSt) (storedInOrder : List Change) : TreeSt :=
+  { t with attached := reload storedInOrder, heads := computeHeads (reload storedInOrder) }
 
 /-- `CreateStorage(root)` then `BuildObjectTree`: root verified (CID, signature unless derived),
 the one-change tree fully validated -/
